@@ -82,7 +82,7 @@ func c03LayoutEnc(t byte, version int) ref.RDBEnc {
 
 // c03Layout builds the multi-key dataset: two databases (or one), a key whose name is
 // written with the integer encoding, a key filtered by prefix, a black-listed database.
-func c03Layout(version int, twoDBs bool, expMode string, lru string) []rdbKeySpec {
+func c03Layout(version int, twoDBs bool, expMode string, lru string, noStream bool) []rdbKeySpec {
 	idle, freq := int64(-1), -1
 	if version >= 9 {
 		switch lru {
@@ -115,7 +115,7 @@ func c03Layout(version int, twoDBs bool, expMode string, lru string) []rdbKeySpe
 		{DB: db2, Key: "str:b", Case: "string/run60", Enc: ref.RDBEnc{Kind: "lzf"}, Exp: exp(0)},
 		{DB: rdbBlackDB, Key: "black", Case: "string/short", Enc: ref.RDBEnc{Kind: "raw"}, Exp: exp(0)},
 	}
-	if version >= 9 {
+	if version >= 9 && !noStream {
 		ks = append(ks, rdbKeySpec{DB: db2, Key: "stream:b", Case: "stream/samefields", Enc: c03LayoutEnc('x', version), Exp: exp(1)})
 	}
 	for i := range ks {
@@ -140,14 +140,59 @@ func c03Enumerate(tier string, f func(c03Item)) {
 	if thorough {
 		exps = []string{"", "future", "past", "futsec", "pastsec"}
 	}
+	targetVers := []string{"4.0.0", "5.0.0", "6.2.0", "7.2.0"}
 	for _, c := range ref.RDBCatalogue() {
+		if c.Heavy && !thorough && c.Name != "string/len1048577" {
+			continue // megabyte values: one in the quick tier, all in the thorough tier
+		}
 		for _, e := range c.Encs {
 			vers, err := ref.RDBEncVersions(c.Val, e, c03MinVersion, c03MaxVersion)
 			if err != nil {
 				panic(err)
 			}
+			if c.Heavy {
+				// values above the loader's 1 MiB read chunk: newest (thorough: also oldest) version, no expiry, RESTORE and expansion
+				for vi, v := range vers {
+					if vi != len(vers)-1 && !(thorough && vi == 0) {
+						continue
+					}
+					for _, cfg := range c03PathCfgs()[:2] {
+						k := rdbKeySpec{DB: 0, Key: "k:" + c.Name, Case: c.Name, Enc: e, Idle: -1, Freq: -1}
+						f(c03Item{scn: one(k, v, cfg, v >= 7)})
+					}
+				}
+				continue
+			}
+			if c.Core && len(vers) > 0 {
+				// plan V: the target's version gates. Newest RDB version of the encoding (thorough: also the oldest)
+				// x target version x expiry x {RESTORE, expansion}; a 4.0 target has no streams
+				for vi, v := range vers {
+					if vi != len(vers)-1 && !(thorough && vi == 0) {
+						continue
+					}
+					for _, tv := range targetVers {
+						if c.Val.Type == 'x' && tv == "4.0.0" {
+							continue
+						}
+						for _, x := range []string{"", "future", "past"} {
+							for _, cfg := range c03PathCfgs()[:2] {
+								cfg.TargetVer = tv
+								k := rdbKeySpec{DB: 0, Key: "k:" + c.Name, Case: c.Name, Enc: e, Exp: x, Idle: -1, Freq: -1}
+								if v >= 9 && x == "future" {
+									k.Idle = 9 // IDLETIME must not be sent to a target before 5.0
+								}
+								f(c03Item{scn: one(k, v, cfg, v >= 7)})
+							}
+						}
+					}
+				}
+			}
 			for _, v := range vers {
-				for _, x := range exps {
+				xs := exps
+				if c.Core {
+					xs = append(append([]string(nil), exps...), "now") // expiry at the very millisecond of the replay
+				}
+				for _, x := range xs {
 					for ci, cfg := range c03PathCfgs() {
 						k := rdbKeySpec{DB: 0, Key: "k:" + c.Name, Case: c.Name, Enc: e, Exp: x, Idle: -1, Freq: -1}
 						f(c03Item{scn: one(k, v, cfg, v >= 7)})
@@ -176,6 +221,25 @@ func c03Enumerate(tier string, f func(c03Item)) {
 			}
 		}
 	}
+	// ---- plan H: ReplaceHashTag - the first "{" and the first "}" of a key name are dropped on the target;
+	// the value, its expiry and the policy-free replace handling must follow the rewritten name on every path
+	for _, key := range []string{"{t}subj", "user{tag}", "order{42", "a}b{c", "plain"} {
+		for _, cs := range []struct {
+			c string
+			e ref.RDBEnc
+			v int
+		}{{"string/short", ref.RDBEnc{Kind: "raw"}, 9}, {"hash/small", ref.RDBEnc{Kind: "listpack"}, 11}, {"list/small", ref.RDBEnc{Kind: "quicklist2", Node: 2}, 10}, {"stream/samefields", ref.RDBEnc{Kind: "v3"}, 11}} {
+			for _, x := range []string{"", "future", "past"} {
+				for _, restore := range []bool{true, false} {
+					for _, bi := range []bool{false, true} {
+						cfg := rdbCfg{Restore: restore, BulkLen: c03BigBulk, Parallel: 1, DbMode: "id", Resume: true, HashTag: true, Bisync: bi}
+						k := rdbKeySpec{DB: 0, Key: key, Case: cs.c, Enc: cs.e, Exp: x, Idle: -1, Freq: -1}
+						f(c03Item{scn: one(k, cs.v, cfg, true)})
+					}
+				}
+			}
+		}
+	}
 	// ---- plan B: database layouts x replay configurations
 	versions := []int{6, 9, 11, 13}
 	lrus := []string{"", "idle"}
@@ -196,8 +260,18 @@ func c03Enumerate(tier string, f func(c03Item)) {
 						for _, par := range []int{1, 2} {
 							for _, dbm := range []string{"id", "map31", "all0"} {
 								for _, res := range resumes {
-									cfg := rdbCfg{Restore: restore, BulkLen: c03BigBulk, Parallel: par, DbMode: dbm, Resume: res}
-									f(c03Item{scn: rdbScenario{Keys: c03Layout(v, two, xm, lru), Version: v, Aux: v >= 7, Cfg: cfg}})
+									for _, bi := range []bool{false, true} {
+										cfg := rdbCfg{Restore: restore, BulkLen: c03BigBulk, Parallel: par, DbMode: dbm, Resume: res, Bisync: bi}
+										f(c03Item{scn: rdbScenario{Keys: c03Layout(v, two, xm, lru, false), Version: v, Aux: v >= 7, Cfg: cfg}})
+										if lru != "" && (thorough || (dbm == "id" && par == 1)) {
+											// LRU/LFU opcodes meet the target's version gate for RESTORE ... IDLETIME/FREQ
+											for _, tv := range targetVers {
+												c2 := cfg
+												c2.TargetVer = tv
+												f(c03Item{scn: rdbScenario{Keys: c03Layout(v, two, xm, lru, tv == "4.0.0"), Version: v, Aux: v >= 7, Cfg: c2}})
+											}
+										}
+									}
 								}
 							}
 						}
@@ -213,35 +287,11 @@ func c03Enumerate(tier string, f func(c03Item)) {
 	// because the worker of a key is FNV(key) mod 2). Exactly the kept keys must exist, each
 	// in its mapped database, and nothing else anywhere.
 	planE := func(pats [3]string, filter string, filterDB int, dbm string, restore bool, par, names int) {
-		dbs := [3]int{0, 1, 3}
-		cases := []struct {
-			c string
-			e ref.RDBEnc
-		}{{"string/short", ref.RDBEnc{Kind: "raw"}}, {"hash/small", ref.RDBEnc{Kind: "listpack"}}, {"list/small", ref.RDBEnc{Kind: "quicklist2", Node: 2}}}
-		var keys []rdbKeySpec
-		n := 0
-		for di, pat := range pats {
-			for i, ch := range pat {
-				drop := ch == 'D'
-				prefix := rdbKeepPrefix
-				if drop {
-					switch filter {
-					case "prefix-black":
-						prefix = rdbFltPrefix
-					case "db-black":
-						prefix = rdbKeepPrefix // dropped because of its database, not its name
-					default:
-						prefix = "drop:"
-					}
-				}
-				cs := cases[n%len(cases)]
-				n++
-				name := fmt.Sprintf("%sd%d.%d%s", prefix, dbs[di], i, []string{"", "-x", "-yz"}[names])
-				keys = append(keys, rdbKeySpec{DB: dbs[di], Key: name, Case: cs.c, Enc: cs.e, Idle: -1, Freq: -1, Drop: drop})
-			}
+		planE1(f, pats, filter, filterDB, dbm, restore, par, names, false)
+		if par == 1 && names == 0 {
+			// the bidirectional replay loop has its own copy of the filter / SELECT logic
+			planE1(f, pats, filter, filterDB, dbm, restore, par, names, true)
 		}
-		cfg := rdbCfg{Restore: restore, BulkLen: c03BigBulk, Parallel: par, DbMode: dbm, Resume: true, Filter: filter, FilterDB: filterDB}
-		f(c03Item{scn: rdbScenario{Keys: keys, Version: 11, Aux: true, Cfg: cfg}})
 	}
 	pat0 := []string{"KK", "DK", "KD", "DD"}
 	pat1 := []string{"K", "DK", "KD", "DKK", "KDK", "DD"}
@@ -352,6 +402,39 @@ func c03Enumerate(tier string, f func(c03Item)) {
 	}
 }
 
+// planE1 emits one scenario of plan E (filters x database layouts).
+func planE1(f func(c03Item), pats [3]string, filter string, filterDB int, dbm string, restore bool, par, names int, bi bool) {
+	dbs := [3]int{0, 1, 3}
+	cases := []struct {
+		c string
+		e ref.RDBEnc
+	}{{"string/short", ref.RDBEnc{Kind: "raw"}}, {"hash/small", ref.RDBEnc{Kind: "listpack"}}, {"list/small", ref.RDBEnc{Kind: "quicklist2", Node: 2}}}
+	var keys []rdbKeySpec
+	n := 0
+	for di, pat := range pats {
+		for i, ch := range pat {
+			drop := ch == 'D'
+			prefix := rdbKeepPrefix
+			if drop {
+				switch filter {
+				case "prefix-black":
+					prefix = rdbFltPrefix
+				case "db-black":
+					prefix = rdbKeepPrefix // dropped because of its database, not its name
+				default:
+					prefix = "drop:"
+				}
+			}
+			cs := cases[n%len(cases)]
+			n++
+			name := fmt.Sprintf("%sd%d.%d%s", prefix, dbs[di], i, []string{"", "-x", "-yz"}[names])
+			keys = append(keys, rdbKeySpec{DB: dbs[di], Key: name, Case: cs.c, Enc: cs.e, Idle: -1, Freq: -1, Drop: drop})
+		}
+	}
+	cfg := rdbCfg{Restore: restore, BulkLen: c03BigBulk, Parallel: par, DbMode: dbm, Resume: true, Filter: filter, FilterDB: filterDB, Bisync: bi}
+	f(c03Item{scn: rdbScenario{Keys: keys, Version: 11, Aux: true, Cfg: cfg}})
+}
+
 func runC03(t *testing.T, rep *mc.Reporter) {
 	shard, nshards := mc.ShardOf()
 	tier := mc.Tier()
@@ -377,7 +460,14 @@ func runC03(t *testing.T, rep *mc.Reporter) {
 			return
 		}
 		scn := it.scn
-		mc.RunScenario(rep, scn, it.bound, budget, func(ch *mc.Chooser) mc.Result { return rdbExec(t, "C03", scn, ch, nil) })
+		mc.RunScenario(rep, scn, it.bound, budget, func(ch *mc.Chooser) mc.Result {
+			r := rdbExec(t, "C03", scn, ch, nil)
+			if r.Verdict == "ok" && r.Detail == rdbRefusedOlderTarget {
+				rep.Count("reported_refusal_older_target", 1)
+				r.Detail = nil
+			}
+			return r
+		})
 	})
 	rep.Count("scenarios_enumerated", int64(idx)/int64(nshards))
 	if budget.Expired() {
